@@ -122,7 +122,9 @@ pub enum ConnectionControl {
     DeallocateSession(OutgoingChannel),
     GetMaxFrameSize(SizeResponder),
 }
-opaque!(SessTxOwned, AllocSessionError, ConnAllocError, ConnectionStopReason);
+opaque!(SessTxOwned, AllocSessionError, ConnAllocError);
+//@@ type file=fe2o3-amqp/src/connection/mod.rs kind=enum name=ConnectionStopReason
+//@@ end
 #[verifier::external_body]
 pub fn amqp_error_of(which: u8, description: Option<String>) -> (r: AmqpError) { unimplemented!() }
 pub struct AllocResponder { pub g: Ghost<int> }
@@ -137,18 +139,56 @@ impl SizeResponder {
 }
 #[verifier::external_body]
 pub fn alloc_err_into(e: ConnAllocError) -> (r: AllocSessionError) { unimplemented!() }
-#[verifier::external_body]
-pub fn stop_reason_closed_with_error(e: AmqpError) -> (r: ConnectionStopReason) { unimplemented!() }
+pub fn stop_reason_closed_with_error(e: AmqpError) -> (r: ConnectionStopReason) ensures r == ConnectionStopReason::ClosedWithError(e) { ConnectionStopReason::ClosedWithError(e) }
 #[verifier::external_body]
 pub fn eof_transport_error() -> (r: TransportError) { unimplemented!() }
 impl ConnS {
     #[verifier::external_body]
-    pub fn set_connection_stop_reason(&mut self, reason: ConnectionStopReason) ensures final(self).st == old(self).st { unimplemented!() }
+    pub fn set_connection_stop_reason(&mut self, reason: ConnectionStopReason) ensures final(self).st == old(self).st, final(self).local_open == old(self).local_open, final(self).stop_set@ == Some(reason) { unimplemented!() }
     #[verifier::external_body]
     pub fn allocate_session(&mut self, tx: SessTxOwned) -> (r: Result<OutgoingChannel, ConnAllocError>) ensures final(self).st == old(self).st { unimplemented!() }
     #[verifier::external_body]
     pub fn deallocate_session(&mut self, ch: OutgoingChannel) ensures final(self).st == old(self).st { unimplemented!() }
 }
+
+/// connection::Error (connection/error.rs; the JoinError variant is elided, R11) and `impl From<ConnectionInnerError> for Error` (variant-wise)
+pub enum Error { TransportError(TransportError), IllegalState, NotImplemented(Option<String>), NotFound(Option<String>), NotAllowed(Option<String>), RemoteClosed, RemoteClosedWithError(AmqpError) }
+pub open spec fn inner_to_error(e: ConnectionInnerError) -> Error {
+    match e {
+        ConnectionInnerError::TransportError(v) => Error::TransportError(v), ConnectionInnerError::IllegalState => Error::IllegalState,
+        ConnectionInnerError::NotImplemented(v) => Error::NotImplemented(v), ConnectionInnerError::NotFound(v) => Error::NotFound(v),
+        ConnectionInnerError::RemoteClosed => Error::RemoteClosed, ConnectionInnerError::RemoteClosedWithError(v) => Error::RemoteClosedWithError(v),
+    }
+}
+pub fn inner_into_error(e: ConnectionInnerError) -> (r: Error) ensures r == inner_to_error(e) {
+    match e {
+        ConnectionInnerError::TransportError(v) => Error::TransportError(v), ConnectionInnerError::IllegalState => Error::IllegalState,
+        ConnectionInnerError::NotImplemented(v) => Error::NotImplemented(v), ConnectionInnerError::NotFound(v) => Error::NotFound(v),
+        ConnectionInnerError::RemoteClosed => Error::RemoteClosed, ConnectionInnerError::RemoteClosedWithError(v) => Error::RemoteClosedWithError(v),
+    }
+}
+impl TransportS {
+    /// SinkExt::close on the transport: flush + shut the byte stream down; it may fail (a TCP socket whose peer has gone reports ENOTCONN)
+    #[verifier::external_body]
+    pub fn close(&mut self) -> (r: Result<(), TransportError>) ensures final(self).sent == old(self).sent { unimplemented!() }
+}
+/// the oneshot the ConnectionHandle reads its result from (`on_close` / `close`). `owes_ok` (ghost): the close handshake completed cleanly
+pub struct OutcomeTx { pub owes_ok: Ghost<bool>, pub owes_peer_error: Ghost<Option<AmqpError>> }
+impl OutcomeTx {
+    #[verifier::external_body]
+    pub fn send(self, r: Result<(), Error>) -> (o: Result<(), Result<(), Error>>)
+        requires
+            self.owes_ok@ ==> r is Ok,                                                                                  // [C12.result.clean-close-reported-clean] a close handshake that completed without an error on either side is reported as Ok -- whatever happens when the byte stream is shut down afterwards
+            self.owes_peer_error@ is Some ==> r == Err::<(), Error>(Error::RemoteClosedWithError(self.owes_peer_error@->Some_0)),   // [C12.result.peer-error-reported] the error the peer closed with is what the handle reports
+    { unimplemented!() }
+}
+impl ConnCtlRx {
+    #[verifier::external_body]
+    pub fn close(&mut self) { unimplemented!() }
+}
+/// Result::and (std)
+pub assume_specification<T, E, U>[ Result::<T, E>::and ](r: Result<T, E>, o: Result<U, E>) -> (x: Result<U, E>)
+    ensures x == (match r { Ok(_) => o, Err(e) => Err::<U, E>(e) });
 
 /// OpenError with the variants open_inner produces (R11)
 pub enum OpenError { Io(IoErr), IllegalState, NotImplemented(Option<String>), RemoteClosed, RemoteClosedWithError(AmqpError), TransportError(TransportError), Other }
@@ -219,7 +259,8 @@ impl SessTx {
 pub open spec fn close_frame(error: Option<AmqpError>) -> Frame { Frame { channel: 0, body: FrameBody::Close(Close { error }) } }
 
 /// the connection endpoint as the engine sees it
-pub struct ConnS { pub st: ConnectionState, pub local_open: Open, pub g: Ghost<int> }
+/// `stop_set` (ghost): the stop reason the engine asked to publish last (the cell itself is write-once: Connection::set_connection_stop_reason, unit CONN)
+pub struct ConnS { pub st: ConnectionState, pub local_open: Open, pub g: Ghost<int>, pub stop_set: Ghost<Option<ConnectionStopReason>> }
 impl ConnS {
     pub fn local_state(&self) -> (r: &ConnectionState) ensures *r == self.st { &self.st }
     /// [C12.open-received] / [C17.channel-max.agreed] of unit CONN
@@ -552,6 +593,23 @@ impl ConnectionEngine {
     requires transport.sent@.len() == 0,
     ensures
         r is Ok ==> r->Ok_0.transport.sent@.len() == 1 && r->Ok_0.transport.recv@.len() == transport.recv@.len() + 1 && r->Ok_0.transport.recv@.last().body is Open,   // [C12.open-exchange] the engine is handed out only after the Open exchange
+//@@ end
+
+//@@ fn file=fe2o3-amqp/src/connection/engine.rs impl=`~impl<Io,C>ConnectionEngine<Io,C>whereIo:AsyncRead+AsyncWrite+std::fmt::Debug+SendBound+Unpin+'static,C:endpoint::Connection<State=ConnectionState>` name=event_loop as=event_loop_tail
+//@@ tailfrom `let close = self.transport.close()`
+//@@ addparam outcome: Result<(), ConnectionInnerError>
+//@@ param tx : OutcomeTx
+//@@ subst `mut self` => `&mut self` rule=R32
+//@@ subst `self.transport.close().map_err(Into::into)` => `self.transport.close().map_err(|e: TransportError| -> (o: ConnectionInnerError) ensures o == transport_err_to_inner(e) { e.err_into() })` rule=R17
+//@@ subst `outcome.and(close).map_err(Into::into)` => `outcome.and(close).map_err(|e: ConnectionInnerError| -> (o: Error) ensures o == inner_to_error(e) { inner_into_error(e) })` rule=R17
+//@@ spec
+    requires
+        tx.owes_ok@ == (outcome is Ok && old(self).connection.st is End),             // the event loop ended with the close handshake complete (END) and no handler reported an error
+        tx.owes_peer_error@ == (if outcome is Err && outcome->Err_0 is RemoteClosedWithError { Some(outcome->Err_0->RemoteClosedWithError_0) } else { None::<AmqpError> }),
+    ensures
+        outcome is Err && outcome->Err_0 is RemoteClosedWithError ==> final(self).connection.stop_set@ == Some(ConnectionStopReason::RemoteClosedWithError(outcome->Err_0->RemoteClosedWithError_0)),   // [C12.stop-reason.peer-error] sessions and links are told the peer's error too
+        outcome is Err && outcome->Err_0 is RemoteClosed ==> final(self).connection.stop_set@ == Some(ConnectionStopReason::RemoteClosed),
+        final(self).transport.sent@ == old(self).transport.sent@,                                                        // [C12.nothing-after-close] tearing the engine down writes no frame
 //@@ end
 }
 #[verifier::external_body]
